@@ -610,7 +610,9 @@ impl World {
         }
         let conn = self.conn.as_mut().unwrap();
         if conn.stream_bad { return; }
+        let starts_packet = conn.partial.is_empty();
         conn.partial.extend_from_slice(bytes);
+        if starts_packet && conn.partial.first() == Some(&0xC0) && conn.ping_sent_at.is_none() { conn.ping_sent_at = Some(self.now); }
         loop {
             let conn = self.conn.as_mut().unwrap();
             if conn.partial.is_empty() { break; }
@@ -689,7 +691,7 @@ impl World {
         conn.write_stalled = false;
         match &pkt {
             Pkt::Disconnect(_) => { conn.disconnect_emitted = true; }
-            Pkt::Pingreq => { conn.ping_sent_at = Some(now); }
+            Pkt::Pingreq => { if conn.ping_sent_at.is_none() { conn.ping_sent_at = Some(now); } }
             Pkt::Puback(a) | Pkt::Pubrec(a) | Pkt::Pubcomp(a) => {
                 // C05: acks leave in arrival order of what they answer, exactly one each
                 let t = ptype(&pkt);
@@ -734,8 +736,9 @@ impl World {
         }
     }
 
-    fn negotiated_keep_alive(&self) -> u64 {
-        self.cfg.connack.server_keep_alive.or(self.cfg.keep_alive).unwrap_or(0) as u64
+    pub fn negotiated_keep_alive(&self) -> u64 {
+        let server = if self.cfg.mqtt311 { None } else { self.cfg.connack.server_keep_alive };
+        server.or(self.cfg.keep_alive).unwrap_or(0) as u64
     }
 
     fn check_keepalive_gap(&mut self, pkt: &Pkt) {
@@ -941,7 +944,7 @@ impl World {
             self.violate("C04", "pubrel-without-pubrec", format!("PUBREL {} for tag {} ({:?}, pubrec_ok={})", id, tag, op.kind, op.pubrec_ok));
         }
         if op.completions > 0 { self.violate("C04", "transmit-after-complete Pubrel", format!("PUBREL for completed tag {}", tag)); }
-        if op.pubrel_sends.iter().any(|c| *c == ci) {
+        if op.pubrel_sends.iter().any(|c| *c == ci) && !self.conn.as_ref().map(|c| c.hostile_used).unwrap_or(false) {
             self.violate("C04", "pubrel-twice-on-connection", format!("tag {} PUBREL sent twice on connection {}", tag, ci));
         }
         let op = self.op_mut(tag).unwrap();
@@ -954,7 +957,7 @@ impl World {
     /// C09: broker-side in-flight count and one-at-a-time drain
     fn check_flow_control(&mut self, _tag: u32) {
         let conn = self.conn.clone().unwrap();
-        let receive_maximum = self.cfg.connack.receive_maximum.unwrap_or(65535) as usize;
+        let receive_maximum = self.cfg.receive_maximum_for(conn.index).unwrap_or(65535) as usize;
         let inflight_publishes = conn.outstanding.iter().filter(|t| { let op = &self.ops[**t as usize]; op.completions == 0 && (op.kind == OpKind::Pub1 || op.kind == OpKind::Pub2) }).count();
         if !self.cfg.mqtt311 && inflight_publishes > receive_maximum {
             self.violate("C09", format!("receive-maximum-exceeded max={}", receive_maximum), format!("{} QoS1/2 publishes in flight on connection {}", inflight_publishes, conn.index));
